@@ -79,6 +79,10 @@ type Fault struct {
 type Segment struct {
 	Task  int `json:"t"`
 	Steps int `json:"n"`
+	// Kill marks the decision at which the scheduler picked the task and a
+	// crash fault killed it instead of running a step (Steps is 0): a
+	// replay kills it at the same point of the interleaving.
+	Kill bool `json:"kill,omitempty"`
 }
 
 type taskState int
@@ -247,7 +251,7 @@ func (t *Task) yield(c Call) bool {
 func (s *Sim) step(t *Task) {
 	s.cur = t
 	s.Steps++
-	if n := len(s.Sched); n > 0 && s.Sched[n-1].Task == t.ID {
+	if n := len(s.Sched); n > 0 && s.Sched[n-1].Task == t.ID && !s.Sched[n-1].Kill {
 		s.Sched[n-1].Steps++
 	} else {
 		s.Sched = append(s.Sched, Segment{Task: t.ID, Steps: 1})
@@ -324,6 +328,7 @@ func (s *Sim) RunPhase(tasks []*Task, strat Strategy) {
 		if t.state == tsParked || t.state == tsNew {
 			if f := s.faultAt(t, FaultCrash); f != nil || (t.state == tsNew && s.crashAtStart(t)) {
 				s.Counters["fault.crash"]++
+				s.Sched = append(s.Sched, Segment{Task: t.ID, Kill: true})
 				s.logSynthetic(t, "CRASH")
 				s.kill(t)
 				cur = nil
